@@ -8,6 +8,7 @@ import (
 	"os/signal"
 	"sync"
 	"syscall"
+	"time"
 
 	"github.com/RoaringBitmap/roaring/v2"
 	segment "github.com/blevesearch/scorch_segment_api/v2"
@@ -360,7 +361,7 @@ func (cl *closer) ReportBytesWritten(n uint64) {
 }
 
 func checkC18(c *ctx) {
-	c.Rule = "deterministic cancellation without a hook: the StatsReporter passed to Merge is called on every write; the harness closes the close-channel when the cumulative byte count reaches k, for EVERY write boundary k of the fault-free run (between two polls nothing else can be distinguished), plus closed-before-the-call and never-closed; inputs with several segments, doc values, deletions and thesauri; allowed outcomes: (ErrClosed and no file) or (nil and a file that decodes, through the extracted parser, to the extracted spec_merge); non-trivial = a close strictly inside the merge"
+	c.Rule = "deterministic cancellation without a hook: the StatsReporter passed to Merge is called on every write; the harness closes the close-channel when the cumulative byte count reaches k, for EVERY write boundary k of the fault-free run (between two polls nothing else can be distinguished), plus closed-before-the-call and never-closed, plus closes by a second goroutine at random moments of the merge; inputs with several segments, doc values, deletions (every fourth input set: all documents deleted) and thesauri; allowed outcomes: (ErrClosed and no file) or (nil and a file that decodes, through the extracted parser, to the extracted spec_merge); non-trivial = a close strictly inside the merge"
 	c.Assumptions = append(c.Assumptions, "the poll points themselves are not observable without editing the merge; the model (Cancel.v) quantifies over every placement of polls and of the close")
 	savedBuf := zap.DefaultFileMergerBufferSize
 	defer func() { zap.DefaultFileMergerBufferSize = savedBuf }()
@@ -368,8 +369,20 @@ func checkC18(c *ctx) {
 	for i := 0; i < nIn; i++ {
 		pool := genMergeInputs(c, 2+c.R.Intn(2), true)
 		mc := genMergeCase(c, pool)
-		for survivors(mc) == 0 {
-			mc = genMergeCase(c, pool)
+		if i%4 == 3 {
+			// every document of every input deleted: the merge has nothing to copy but must
+			// still honour the channel
+			for j, e := range mc.ins {
+				mc.drops[j], mc.nilBM[j] = nil, false
+				for d := uint64(0); d < e.n; d++ {
+					mc.drops[j] = append(mc.drops[j], d)
+				}
+			}
+			c.Count("inputs_with_no_survivor")
+		} else {
+			for survivors(mc) == 0 {
+				mc = genMergeCase(c, pool)
+			}
 		}
 		mspec, mmaps := specMerge(c, mc)
 		segs := make([]segment.Segment, len(mc.ins))
@@ -380,7 +393,9 @@ func checkC18(c *ctx) {
 		// fault-free run with a reporter that never closes: the write boundaries
 		rec := &closer{}
 		path := zh.TmpPath("c18")
+		t0 := time.Now()
 		_, _, err := zap.VerifMerge(segs, mc.bitmaps(), path, mc.mode, make(chan struct{}), rec)
+		mergeTime := time.Since(t0)
 		must(err)
 		os.Remove(path)
 		var bounds []uint64
@@ -395,12 +410,21 @@ func checkC18(c *ctx) {
 			evs = append(evs, s+1, 0)
 		}
 		tried := map[uint64]bool{}
+		var asyncDelay time.Duration = -1 // >= 0: a second goroutine closes the channel after this delay
 		run := func(k uint64, pre bool) string {
 			ch := make(chan struct{})
 			cl := &closer{k: k, ch: ch}
 			if pre {
 				close(ch)
 				cl.closed = true
+			}
+			if asyncDelay >= 0 {
+				cl.closed = true // the reporter never closes
+				go func(d time.Duration) {
+					for t := time.Now(); time.Since(t) < d; {
+					}
+					close(ch)
+				}(asyncDelay)
 			}
 			path := zh.TmpPath("c18")
 			defer os.Remove(path)
@@ -480,6 +504,22 @@ func checkC18(c *ctx) {
 					c.Violation(fmt.Sprintf("C18 close channel closed when %d of %d bytes had been written (tail of the merge)\n%s\n%s", bounds[bi], sum, bad, clip(mc.describe())), false)
 					return
 				}
+			}
+		}
+		// the channel closed by another goroutine at an arbitrary moment (also between two writes)
+		trials := c.n(60, 1500)
+		if c.proofBroken("tie_poll_discipline") {
+			trials = 8000
+		}
+		for t := 0; t < trials; t++ {
+			asyncDelay = time.Duration(c.R.Intn(int(mergeTime)*5/4 + 1))
+			d := asyncDelay
+			bad := run(1<<62, false)
+			asyncDelay = -1
+			c.Count("asynchronous_closes")
+			if bad != "" {
+				c.Violation(fmt.Sprintf("C18 close channel closed by another goroutine at an arbitrary moment of the merge (trial %d, %v after the call started; the whole merge takes about %v)\n%s\n%s", t, d, mergeTime, bad, clip(mc.describe())), false)
+				return
 			}
 		}
 		if i == 0 {
